@@ -283,7 +283,10 @@ Http::One::RequestParser::parseRequestFirstLine()
         if (lineBytes >= Config.maxRequestHeaderSize) {
             /* who should we blame for our failure to parse this line? */
 
-            Tokenizer methodTok(buf_);
+            // look at the bytes every delivery of this input is guaranteed to
+            // have when it gets here, so that the answer does not depend on
+            // how many more bytes happened to arrive with them
+            Tokenizer methodTok(buf_.substr(0, Config.maxRequestHeaderSize));
             if (!parseMethodField(methodTok))
                 return -1; // blame a bad method (or its delimiter)
 
